@@ -61,6 +61,10 @@ def configs(tier, seed):
                     continue
                 for op in BINOPS:
                     out.append(dict(h="binop", key=f"binop/{op}/x={xd or '-'}/y={yd or '-'}/{lens_key(lens)}", xd=xd, yd=yd, lens=lens, op=op))
+                    if op in ("sub", "div", "add", "mul") and xd and yd and tuple(xd) != tuple(yd) and lens == lp[0]:
+                        # the right operand is an instance of a subclass (Parameter, Flow, StockArray), the left one a plain
+                        # FlodymArray (what every arithmetic result is): Python asks the subclass's reflected method first
+                        out.append(dict(h="binop", key=f"binop/{op}/x={xd}/y={yd}/{lens_key(lens)}/y_is_Parameter", xd=xd, yd=yd, lens=lens, op=op, ycls="Parameter"))
     for xd in subs:
         lp = list(length_patterns(sorted(xd), choices)) if pats is None else _dedupe([{l: p[l] for l in xd} for p in pats])
         for lens in lp:
@@ -80,8 +84,12 @@ def _dedupe(ds):
     return out
 
 
-def _mk(w, name, letters, lens, dims, how="dims", layout=0):
+def _mk(w, name, letters, lens, dims, how="dims", layout=0, cls=None):
     from flodym import FlodymArray
+    import flodym
+
+    if cls:
+        FlodymArray = getattr(flodym, cls)
 
     shape = tuple(lens[l] for l in letters)
     vals = w.arr(name, shape)
@@ -125,7 +133,7 @@ def run(cfg, w):
     x, X = _mk(w, "x", xd, lens, dims, cfg.get("how", "dims"), layout=lay)
     if cfg["h"] == "binop":
         yd = cfg["yd"]
-        y, Y = _mk(w, "y", yd, lens, dims, layout=(lay + 1) % 3)
+        y, Y = _mk(w, "y", yd, lens, dims, layout=(lay + 1) % 3, cls=cfg.get("ycls"))
         if op in ("add", "sub", "min", "max"):
             out = [l for l in xd if l in yd]
         elif op in ("mul", "div"):
